@@ -163,7 +163,18 @@ func (c *Calcium) doReplaceWorkload(
 					removeMessage.Success = true
 					return
 				},
-				nil,
+				// rollback: the old workload could not be removed, so the new one has to go,
+				// otherwise both stay recorded and running on one and the same resource allocation
+				func(ctx context.Context, failureByCond bool) error {
+					if failureByCond || createMessage.WorkloadID == "" {
+						return nil
+					}
+					newWorkload, err := c.GetWorkload(ctx, createMessage.WorkloadID)
+					if err != nil {
+						return err
+					}
+					return c.doRemoveWorkload(ctx, newWorkload, true)
+				},
 				c.config.GlobalTimeout,
 			)
 		},
